@@ -86,7 +86,9 @@ def extract(repo=REPO, profile="dev"):
         olds = sorted((d for d in os.listdir(CACHE) if d.startswith("facts-")),
                       key=lambda d: os.path.getmtime(os.path.join(CACHE, d)))
         for d in olds[:-80]:      # ~12 MB each; the thorough tier replays every seeded / benign variant
-            shutil.rmtree(os.path.join(CACHE, d), ignore_errors=True)
+            # (never one a concurrent replay may still be about to read)
+            if time.time() - os.path.getmtime(os.path.join(CACHE, d)) > 1800:
+                shutil.rmtree(os.path.join(CACHE, d), ignore_errors=True)
         work = tempfile.mkdtemp(prefix="ruschm-facts-")
         try:
             src = os.path.join(work, "src")
